@@ -640,7 +640,7 @@ def tree_case(draw):
     opts = {}
     if draw(st.integers(0, 3)) == 0:
         opts["copy_buf"] = False
-    if draw(st.integers(0, 7)) == 0:
+    if root != "fcseq" and draw(st.integers(0, 7)) == 0:
         # a Split given to a Split as it is: inner branches that override a key differently, a sibling that keeps it
         key = draw(st.sampled_from(["a", "b", "c.d"]))
         fillable = lambda xs: [x for x in xs if x[0] in ("set", "setf", "store", "call", "mkfn")]   # noqa
